@@ -15,8 +15,10 @@ FW_H = "src/target/firmware/include/layer1/mframe_sched.h"
 FW_PRIM_H = "src/target/firmware/include/layer1/prim.h"
 TRXCON_C = "src/host/trxcon/src/sched_mframe.c"
 TRXCON_H = "src/host/trxcon/include/osmocom/bb/l1sched/l1sched.h"
+TRXCON_DESC_C = "src/host/trxcon/src/sched_lchan_desc.c"
 TRXCON_INC = os.path.join(vf.REPO, "src/host/trxcon/include")
 SHIM_TRXCON = os.path.join(vf.ROOT, "harness/c/shim_trxcon")
+SHIM_TRXSCHED = os.path.join(vf.ROOT, "harness/c/shim_trxsched")
 
 
 def _strip_c_comments(src):
@@ -79,6 +81,34 @@ def trxcon_names(run):
     inc = "".join("FTABLE(%s)\n" % t for t in tables) + "".join("LCHAN(%s)\n" % n for n in lch)
     open(os.path.join(run.scratch, "c11_trxcon_names.inc"), "w").write(inc)
     return tables, lch
+
+
+def sched_names(run):
+    """the lchan handler functions sched_lchan_desc.c declares (the environment of sched_trx.c):
+    RXFN(name) / TXFN(name) by the type of the second parameter"""
+    c = _active(_read(TRXCON_DESC_C))
+    rx, tx = [], []
+    for m in re.finditer(r"\bint\s+(\w+)\s*\(\s*struct\s+l1sched_lchan_state\s*\*\s*\w*\s*,\s*"
+                         r"(const\s+struct\s+l1sched_burst_ind|struct\s+l1sched_burst_req)\s*\*\s*\w*\s*\)\s*;", c):
+        (rx if "burst_ind" in m.group(2) else tx).append(m.group(1))
+    inc = "".join("RXFN(%s)\n" % n for n in rx) + "".join("TXFN(%s)\n" % n for n in tx)
+    open(os.path.join(run.scratch, "c11_sched_names.inc"), "w").write(inc)
+    return rx, tx
+
+
+def dump_desc(run):
+    sched_names(run)
+    exe = os.path.join(run.scratch, "c11_lchan_desc_dump")
+    cmd = ["gcc", "-O0", "-w", '-DC11_LCHAN_DESC_C="%s"' % os.path.join(vf.REPO, TRXCON_DESC_C),
+           "-I", run.scratch, "-I", SHIM_TRXSCHED, "-I", SHIM_TRXCON, "-I", TRXCON_INC,
+           os.path.join(vf.ROOT, "harness/c/c11_lchan_desc_dump.c"), "-o", exe]
+    rc, out = vf.sh(cmd, timeout=600)
+    if rc != 0:
+        raise vf.HarnessError("trxcon lchan description dumper does not compile: %s" % out[-2500:])
+    rc, out = vf.sh([exe], timeout=60)
+    if rc != 0:
+        raise vf.HarnessError("trxcon lchan description dumper failed: %s" % out[-500:])
+    return json.loads(out)
 
 
 def dump_fw(run):
@@ -210,10 +240,26 @@ def lean_trxcon(d):
     return t
 
 
+def lean_desc(d):
+    t = "-- GENERATED from src/host/trxcon/src/sched_lchan_desc.c and l1sched.h by /verif/gen/mframe.py -- do not edit\n"
+    t += "namespace OsmoVerif.Gen.TrxconLchanDesc\n\n"
+    for k, v in d["consts"].items():
+        t += "def %s : Nat := %d\n" % (k, v)
+    t += "\n/-- what sched_trx.c reads of `struct l1sched_lchan_desc`: `rx_fn != NULL`, `tx_fn != NULL`, `flags` -/\n"
+    t += "structure Desc where\n  rx : Bool\n  tx : Bool\n  flags : Nat\n  chanNr : Nat\n  linkId : Nat\nderiving DecidableEq, Repr\n\n"
+    t += "/-- `l1sched_lchan_desc[]` (index = `enum l1sched_lchan_type`) -/\n"
+    t += "def lchanDesc : List Desc := [\n  %s]\n" % ",\n  ".join(
+        "⟨%s, %s, %d, %d, %d⟩" % ("true" if x["rx"] else "false", "true" if x["tx"] else "false",
+                                  x["flags"], x["chan_nr"], x["link_id"]) for x in d["desc"])
+    t += "\nend OsmoVerif.Gen.TrxconLchanDesc\n"
+    return t
+
+
 def generate(run):
     """both translations; a failure of one side does not keep the other from being refreshed"""
     res, errs = {}, []
-    for key, dump, lean, out in (("fw", dump_fw, lean_fw, "FwMframe"), ("trxcon", dump_trxcon, lean_trxcon, "TrxconMframe")):
+    for key, dump, lean, out in (("fw", dump_fw, lean_fw, "FwMframe"), ("trxcon", dump_trxcon, lean_trxcon, "TrxconMframe"),
+                                 ("desc", dump_desc, lean_desc, "TrxconLchanDesc")):
         try:
             res[key] = dump(run)
             vf.write_if_changed(os.path.join(vf.LEAN, "OsmoVerif/Gen/%s.lean" % out), lean(res[key]))
